@@ -230,7 +230,10 @@ void BpEndecodeArray(struct BpArrayDescriptor *descriptor,
 
     // Skip redundant bits if decoding.
     if (descriptor->extensible && (!ctx->is_encode)) {
-        int ito = i + (((int)ahead) * descriptor->cap);
+        // The 16 bits ahead flag is followed by `ahead` elements, each
+        // occupies the same number of bits as the ones just decoded.
+        int element_stride = (ctx->i - i - 16) / descriptor->cap;
+        int ito = i + 16 + (((int)ahead) * element_stride);
         if (ito >= ctx->i) {
             ctx->i = ito;
         }
